@@ -147,6 +147,11 @@ func (container *IKEPayloadContainer) Decode(nextPayload uint8, b []byte) error 
 		case TypeTSr:
 			payload = new(TrafficSelectorResponder)
 		case TypeSK:
+			// RFC 7296 3.14: the Encrypted payload MUST be the last payload, its next payload
+			// field names the first payload inside it
+			if int(payloadLength) != len(b) {
+				return errors.Errorf("DecodePayload(): Encrypted payload is not the last payload in the message")
+			}
 			encryptedPayload := new(Encrypted)
 			encryptedPayload.NextPayload = b[0]
 			payload = encryptedPayload
